@@ -353,6 +353,13 @@ func (s *Store) RemoveSP(entityID string) {
 	delete(s.spSpecs, entityID)
 }
 
+// SetApp registers application appID under entity (the application moved to another entity ID).
+func (s *Store) SetApp(appID, entity string) {
+	s.mu.Lock()
+	defer s.mu.Unlock()
+	s.apps[appID] = entity
+}
+
 // --- provider.Storage ---
 
 func (s *Store) Health(ctx context.Context) error {
